@@ -75,6 +75,20 @@ CHECKS['C05'] = dict(
     technique='machine-checked proof (Coq) over instruction lists regenerated from the source + differential correspondence',
 )
 
+CHECKS['C13'] = dict(
+    text=('Proof. The opt-in scan SupportRemoteGetStateMeta.__check_type_cached is regenerated into a step function over class descriptors on every '
+          'run; theorems give its closed form for every inheritance chain (Warning iff a non-remote, non-**kwargs __getstate__ precedes a '
+          'remote-aware one before any class defining a reducer; registered iff no reducer and some remote-aware __getstate__; never registered '
+          'without one) and, over a reducer-selection model of RemotePickler vs the standard pickler, that a class which does not opt in is '
+          'routed to the same reducer (copyreg entries included). Generated hierarchies (all chains of depth <= 3/4 over 7 features, multiple '
+          'inheritance) are checked against the real metaclass, real dispatch-table look-ups against the model, and remote_pickle.dumps is compared '
+          'byte for byte with pickle.dumps on a standard-library menu and random graphs (protocols 2-5, remote True/False).'),
+    design='5/C13',
+    note=('Byte-level equivalence with CPython pickle is differential testing only (the C pickler is not modelled); the dispatch model is '
+          'hand-written and pinned to the source by tools/pin.py. ' + COMMON_NOTE),
+    technique='machine-checked proof (Coq) over code regenerated from the source + differential testing against pickle',
+)
+
 NOT_YET = {}
 
 
